@@ -54,7 +54,7 @@ def gen(tier, seed):
                 if L.expressible(t, val):
                     d = L.rand_value(rng, t)
                     cases.append({"fields": [{"ty": t, "default": d, "assign": val, "spell": rng.choice(["sep", "eq"])}]})
-    for t in ({"k": "lit", "choices": ["a", "b", "cc"]}, {"k": "lit", "choices": [1, 2, 30]}, {"k": "lit", "choices": ["x", 5]}):
+    for t in L.LITS:
         for c in t["choices"]:
             val = {"t": "str", "v": c} if isinstance(c, str) else {"t": "int", "v": str(c)}
             for ty in (t, {"k": "opt", "item": t}, {"k": "list", "item": t}):
